@@ -81,6 +81,14 @@ impl C12 {
     if ord_of(c, &r) != Some(b) {
       out.fail(env, viol("step", "next_n", case, &k, format!("{} + {} s", ofmt(c, a), n), ofmt(c, b), fmt_time(ymdhms(&r))));
     }
+    // the stepped instant converts to the same Julian date as the constructed one (and back to itself)
+    if ord_of(c, &r) == Some(b) {
+      let (jr, jb) = (r.get_julian_day().get_day(), tb.get_julian_day().get_day());
+      let back = guard(|| ymdhms(&r.get_julian_day().get_solar_time()));
+      if jr != jb || back != Ok(ymdhms(&tb)) {
+        out.fail(env, viol("step", "julian_date_of_stepped_instant", case, &k, format!("({} + {} s).get_julian_day()", ofmt(c, a), n), format!("{} -> {}", jb, ofmt(c, b)), format!("{} -> {:?}", jr, back.map(fmt_time))));
+      }
+    }
     let diff = tb.subtract(ta) as i64;
     if diff != n {
       out.fail(env, viol("step", "subtract", case, &k, format!("{} - {}", ofmt(c, b), ofmt(c, a)), n.to_string(), diff.to_string()));
